@@ -15,20 +15,18 @@ Theorem C04_remove : forall c w e um, plain_env e = true -> wf_table (ks_tab (wo
 Proof. exact C04_remove_proof. Qed.
 Print Assumptions C04_remove.
 
-(* rename / rebase: the same for the target and for every direct child that is not in error state *)
-Theorem C04_rename_partial : forall c w e um, plain_env e = true -> wf_table (ks_tab (wo_ks w)) = true ->
+(* rename / rebase: the same for the target and for every direct child *)
+Theorem C04_rename : forall c w e um, plain_env e = true -> wf_table (ks_tab (wo_ks w)) = true ->
   wf_layers c (layers_on_disk c (wo_fs w)) = true ->
-  forall n n2, no_error_children (layers_on_disk c (wo_fs w)) n = true ->
-  C04.step_spec c w (view_of_model c w e (CRename n n2) um) = true.
+  forall n n2, C04.step_spec c w (view_of_model c w e (CRename n n2) um) = true.
 Proof. exact C04_rename_proof. Qed.
-Print Assumptions C04_rename_partial.
+Print Assumptions C04_rename.
 
-Theorem C04_rebase_partial : forall c w e um, plain_env e = true -> wf_table (ks_tab (wo_ks w)) = true ->
+Theorem C04_rebase : forall c w e um, plain_env e = true -> wf_table (ks_tab (wo_ks w)) = true ->
   wf_layers c (layers_on_disk c (wo_fs w)) = true ->
-  forall n n2, no_error_children (layers_on_disk c (wo_fs w)) n = true ->
-  C04.step_spec c w (view_of_model c w e (CRebase n n2) um) = true.
+  forall n n2, C04.step_spec c w (view_of_model c w e (CRebase n n2) um) = true.
 Proof. exact C04_rebase_proof. Qed.
-Print Assumptions C04_rebase_partial.
+Print Assumptions C04_rebase.
 
 (* the same three facts in direct form: the run returns Fail and the machine state is the
    initial one -- world untouched, nothing counted, nothing logged; this needs no assumption on
@@ -41,31 +39,29 @@ Theorem C04_protect_target_remove : forall c w e um, wf_table (ks_tab (wo_ks w))
 Proof. exact remove_protected. Qed.
 Print Assumptions C04_protect_target_remove.
 
-Theorem C04_protect_rename_partial : forall c w e um, wf_table (ks_tab (wo_ks w)) = true ->
+Theorem C04_protect_rename : forall c w e um, wf_table (ks_tab (wo_ks w)) = true ->
   wf_layers c (layers_on_disk c (wo_fs w)) = true ->
-  forall n n2 x, no_error_children (layers_on_disk c (wo_fs w)) n = true ->
-  lm_get (layers_on_disk c (wo_fs w)) n = Some x ->
+  forall n n2 x, lm_get (layers_on_disk c (wo_fs w)) n = Some x ->
   (C04.protected c (ks_tab (wo_ks w)) um x
    || existsb (fun k => beq (l_base k) n && C04.protected c (ks_tab (wo_ks w)) um k) (layers_on_disk c (wo_fs w))) = true ->
   run e c um (CRename n n2) (world_of w) = (Fail, MkSt (world_of w) 0 []).
 Proof. exact rename_protected. Qed.
-Print Assumptions C04_protect_rename_partial.
+Print Assumptions C04_protect_rename.
 
-Theorem C04_protect_rebase_partial : forall c w e um, wf_table (ks_tab (wo_ks w)) = true ->
+Theorem C04_protect_rebase : forall c w e um, wf_table (ks_tab (wo_ks w)) = true ->
   wf_layers c (layers_on_disk c (wo_fs w)) = true ->
-  forall n n2 x, no_error_children (layers_on_disk c (wo_fs w)) n = true ->
-  lm_get (layers_on_disk c (wo_fs w)) n = Some x ->
+  forall n n2 x, lm_get (layers_on_disk c (wo_fs w)) n = Some x ->
   (C04.protected c (ks_tab (wo_ks w)) um x
    || existsb (fun k => beq (l_base k) n && C04.protected c (ks_tab (wo_ks w)) um k) (layers_on_disk c (wo_fs w))) = true ->
   run e c um (CRebase n n2) (world_of w) = (Fail, MkSt (world_of w) 0 []).
 Proof. exact rebase_protected. Qed.
-Print Assumptions C04_protect_rebase_partial.
+Print Assumptions C04_protect_rebase.
 
 (* umount L: refused without a call when a user sits in build/upper/work or the layer is
    overlain; otherwise a mounted layer is not refused without a call *)
 Theorem C04_umount_single_partial : forall c w e um, plain_env e = true -> wf_table (ks_tab (wo_ks w)) = true ->
   wf_layers c (layers_on_disk c (wo_fs w)) = true ->
-  forall n, hyp_umount1 c (wo_fs w) (layers_on_disk c (wo_fs w)) n = true ->
+  forall n, dirs_noslash c = true ->
   C04.step_spec c w (view_of_model c w e (CUmount n false) um) = true.
 Proof. exact C04_umount1_proof. Qed.
 Print Assumptions C04_umount_single_partial.
